@@ -1,0 +1,37 @@
+//go:build verif
+
+package service
+
+import (
+	"github.com/icon-project/goloop/chain/base"
+	"github.com/icon-project/goloop/common/db"
+	"github.com/icon-project/goloop/common/log"
+	"github.com/icon-project/goloop/module"
+	"github.com/icon-project/goloop/service/contract"
+	"github.com/icon-project/goloop/service/eeproxy"
+	"github.com/icon-project/goloop/service/state"
+)
+
+// Accessors for the verification harness (/verif). Add-only, no behaviour change.
+
+// NewInitTransitionWithTXIDManager is NewInitTransition with the caller's
+// TXIDManager (the one its transaction pool uses), which is how NewManager
+// wires the pool and the transitions together.
+func NewInitTransitionWithTXIDManager(
+	db db.Database,
+	result []byte,
+	vl module.ValidatorList,
+	cm contract.ContractManager,
+	em eeproxy.Manager, chain module.Chain,
+	logger log.Logger, plt base.Platform,
+	tsc *TxTimestampChecker,
+	tim TXIDManager,
+) (module.Transition, error) {
+	return newInitTransition(db, result, vl, cm, em, chain, logger, plt, tsc, tim, newDSRManager(logger))
+}
+
+// WorldSnapshotOfTransition returns the world snapshot a completed transition produced
+// (what ProposeTransition builds the proposer's world context from).
+func WorldSnapshotOfTransition(tr module.Transition) state.WorldSnapshot {
+	return tr.(*transition).worldSnapshot
+}
